@@ -291,6 +291,26 @@ def writers_of(mod, cls, attr):
     return out
 
 
+def thread_model():
+    """(current, calls): a model of the threading identity functions. current['ident'] selects the running thread;
+    thread objects are one per identity (so `is` comparisons behave), the main thread is current['main']."""
+    from ..fdeval import Obj
+    current = {'ident': 1, 'main': 0}
+    threads = {}
+
+    def thread(i):
+        if i not in threads:
+            threads[i] = Obj('thread', ident=i, name='thread-%d' % i, native_id=100 + i)
+        return threads[i]
+    calls_ = {'threading.get_ident': lambda: current['ident'], 'get_ident': lambda: current['ident'],
+              'threading.get_native_id': lambda: 100 + current['ident'],
+              'threading.current_thread': lambda: thread(current['ident']),
+              'current_thread': lambda: thread(current['ident']),
+              'threading.main_thread': lambda: thread(current['main']),
+              'main_thread': lambda: thread(current['main'])}
+    return current, calls_
+
+
 def cross_thread_release(ctx, sym, mod, rule):
     """The timeout arm runs in the grader thread while the patches were started in the student thread: a group
     started under one thread identity must be stopped by _stop_patches called under another."""
@@ -304,25 +324,25 @@ def cross_thread_release(ctx, sym, mod, rule):
         symexec.method(o, 'start', rec.stub(name + '.start'))
         symexec.method(o, 'stop', rec.stub(name + '.stop'))
         return o
-    current = {'ident': 1}
-    thread_calls = {'threading.get_ident': lambda: current['ident'], 'get_ident': lambda: current['ident'],
-                    'threading.current_thread': lambda: Obj('thread', ident=current['ident'],
-                                                            name='thread-%d' % current['ident']),
-                    'current_thread': lambda: Obj('thread', ident=current['ident'], name='thread-%d' % current['ident'])}
-    rec = symexec.Recorder()
-    p1, p2 = patch_obj('p1', rec), patch_obj('p2', rec)
-    me = sandbox_self(ctx, sym, mod)
-    fd = symexec.new_fd(sym, mod, calls=thread_calls)
-    _, raised1 = symexec.run(fd, stp, [p1, p2], bound_self=me, what='Sandbox._start_patches')
-    current['ident'] = 2
-    _, raised2 = symexec.run(fd, sp, [], bound_self=me, what='Sandbox._stop_patches')
-    stops = sorted(e[0] for e in rec.events if e[0].endswith('.stop'))
-    ctx.check(raised1 is None and raised2 is None and stops == ['p1.stop', 'p2.stop'] and
-              not stack(me, 'patches'), rule, '_stop_patches:other-thread', mod, sp,
-              "patches started in one thread are not stopped by _stop_patches called from another thread (stopped: "
-              "%s, stack left: %d)" % (stops, len(stack(me, 'patches'))),
-              "a threaded run that times out: the grader's arm cannot release what the abandoned student thread "
-              "started, so sys.stdout / sys.modules / time.sleep stay patched")
+    current, thread_calls = thread_model()
+    # the grader may be the process's main thread (a script) or not (a server / notebook worker)
+    for grader, main, tag in ((2, 2, ''), (2, 0, '[grader-not-main-thread]')):
+        rec = symexec.Recorder()
+        p1, p2 = patch_obj('p1', rec), patch_obj('p2', rec)
+        me = sandbox_self(ctx, sym, mod)
+        fd = symexec.new_fd(sym, mod, calls=thread_calls)
+        current['ident'], current['main'] = 1, main
+        _, raised1 = symexec.run(fd, stp, [p1, p2], bound_self=me, what='Sandbox._start_patches')
+        current['ident'] = grader
+        _, raised2 = symexec.run(fd, sp, [], bound_self=me, what='Sandbox._stop_patches')
+        stops = sorted(e[0] for e in rec.events if e[0].endswith('.stop'))
+        ctx.check(raised1 is None and raised2 is None and stops == ['p1.stop', 'p2.stop'] and
+                  not stack(me, 'patches'), rule, '_stop_patches:other-thread' + tag, mod, sp,
+                  "patches started in one thread are not stopped by _stop_patches called from another thread%s "
+                  "(stopped: %s, stack left: %d)" % (' that is not the main thread' if tag else '', stops,
+                                                    len(stack(me, 'patches'))),
+                  "a threaded run that times out: the grader's arm cannot release what the abandoned student thread "
+                  "started, so sys.stdout / sys.modules / time.sleep stay patched")
 
 
 def r3_release_complete_and_owned(ctx, mod, sym):
@@ -343,11 +363,7 @@ def r3_release_complete_and_owned(ctx, mod, sym):
         symexec.method(o, 'start', rec.stub(name + '.start'))
         symexec.method(o, 'stop', rec.stub(name + '.stop'))
         return o
-    current = {'ident': 1}
-    thread_calls = {'threading.get_ident': lambda: current['ident'], 'get_ident': lambda: current['ident'],
-                    'threading.current_thread': lambda: Obj('thread', ident=current['ident'],
-                                                            name='thread-%d' % current['ident']),
-                    'current_thread': lambda: Obj('thread', ident=current['ident'], name='thread-%d' % current['ident'])}
+    current, thread_calls = thread_model()
     # the stack is built by _start_patches itself (whatever representation it uses), then _stop_patches must stop
     # exactly the patches of the newest group and pop that group; with an empty stack nothing happens
     for depth in (2, 1, 0):
